@@ -89,6 +89,24 @@ def normalize_rows(rows, norms):
     return np.array(out, dtype=float)
 
 
+def rows_close_pm(a, b, tol):
+    """rows equal up to one sign per row (an orthonormal row of a flag is determined only up to sign)"""
+    a, b = np.asarray(a, dtype=float), np.asarray(b, dtype=float)
+    if a.shape != b.shape or not (finite(a) and finite(b)):
+        return False
+    return all(close(x, y, tol) or close(-x, y, tol) for x, y in zip(a.reshape(-1, a.shape[-1]), b.reshape(-1, b.shape[-1])))
+
+
+def same_span(a, b, tol=1e-8):
+    """the rows of a and of b span the same subspace"""
+    a, b = np.atleast_2d(np.asarray(a, dtype=float)), np.atleast_2d(np.asarray(b, dtype=float))
+    if a.shape != b.shape:
+        return False
+    if a.size == 0:
+        return True
+    return span_dist(a, b) <= tol and span_dist(b, a) <= tol
+
+
 def judge_gs(inp, obs, lr):
     tags = {"fn": "indefinite_orthogonalize", "sig": inp["sig"], "composite": bool(inp["shape"]), "oned": inp["oned"]}
     if "exc" in obs:
@@ -101,8 +119,9 @@ def judge_gs(inp, obs, lr):
         if "err" in res:
             return {"expected": "model answer", "observed": res, "tags": dict(tags, driver_err=res["err"])}
         mv = normalize_rows(Q.decf(res["ok"]["rows"]), [float(F(x)) for x in res["ok"]["norms"]])
-        if not close(np.array(iv), mv, 1e-9):
-            return {"expected": mv.tolist(), "observed": iv, "tags": tags}
+        # the contract (orthonormal rows, same flag) fixes each row up to its sign, and nothing more is compared
+        if not rows_close_pm(np.array(iv), mv, 1e-9):
+            return {"expected": {"rows up to sign": mv.tolist()}, "observed": iv, "tags": tags}
     return None
 
 
@@ -218,8 +237,8 @@ def judge_fi(inp, obs, lr):
         rr = {k_: (float(F(v)) if isinstance(v, str) else v) for k_, v in kr["ok"].items()}
         if max(rr["svd_recon"], rr["svd_orth"]) > 1e-9 * 40 or not rr["svd_sorted"] or rr["svd_len"] != min(inp["k"], n):
             return {"expected": "svd contract on orth_partial @ form", "observed": rr, "tags": dict(tags, lapack_contract=True)}
-        if sel["ok"] != obs["ker"][u]:
-            return {"expected": {"svdKernelRows": sel["ok"]}, "observed": obs["ker"][u], "tags": dict(tags, selection=True)}
+        if not same_span(Q.decf(sel["ok"]) if sel["ok"] else np.zeros((0, n)), Q.decf(obs["ker"][u]) if obs["ker"][u] else np.zeros((0, n))):
+            return {"expected": {"span of svdKernelRows": sel["ok"]}, "observed": obs["ker"][u], "tags": dict(tags, selection=True)}
         for res in (fi, gram, kc):
             if "err" in res:
                 if res is fi and res["err"] == "DivZero":
@@ -240,10 +259,14 @@ def judge_fi(inp, obs, lr):
             if min(abs(x) for x in norms) < 1e-3:
                 continue          # ill-conditioned SVD basis: by-value comparison not meaningful
             mv = normalize_rows(Q.decf(fi["ok"]["rows"]), norms)
-            if inp["force_oriented"] and np.linalg.det(mv) < 0:
-                mv[-1] *= -1
-            if not close(iv, mv, 1e-7):
-                return {"expected": mv.tolist(), "observed": iv.tolist(), "tags": tags}
+            k = inp["k"]
+            # the docstring fixes the first k rows (flag of the partial map, each up to sign); the completion is "not uniquely
+            # determined": it is compared only through the contract (Gram residual above) and through its span
+            if not rows_close_pm(iv[:k], mv[:k], 1e-7):
+                return {"expected": {"first k rows up to sign": mv[:k].tolist()}, "observed": iv[:k].tolist(), "tags": tags}
+            if not same_span(iv[k:], mv[k:], 1e-6):
+                return {"expected": "completion rows span the form-orthogonal complement computed by the model", "observed": iv[k:].tolist(),
+                        "tags": dict(tags, completion_span=True)}
             if inp["force_oriented"] and not obs["dets"][u] > 0:
                 return {"expected": "det > 0", "observed": obs["dets"][u], "tags": dict(tags, orientation=True), "property_failure": True}
     return None
@@ -340,9 +363,13 @@ def judge_diag(inp, obs, lr):
         cand = U / np.sqrt(np.abs(e))
         cinv = np.sqrt(np.abs(e))[:, None] * U.T
         Wo, Wio = np.array(obs["W"][u]), np.array(obs["Winv"][u])
+        if nn > 1 and np.min(np.diff(np.sort(e))) < 1e-6 * (1 + np.max(np.abs(e))):
+            continue      # a repeated eigenvalue: its eigenvectors are determined only up to a rotation
         perm = []
         for i in range(nn):
-            js = [j for j in range(nn) if close(Wo[:, i], cand[:, j], 1e-10) and (not inp["with_inverse"] or close(Wio[i], cinv[j], 1e-10))]
+            # an eigenvector is determined up to its sign (W column and Winv row change sign together)
+            js = [j for j in range(nn) if any(close(sg * Wo[:, i], cand[:, j], 1e-9) and (not inp["with_inverse"] or close(sg * Wio[i], cinv[j], 1e-9))
+                                              for sg in (1, -1))]
             if len(js) != 1:
                 return {"expected": "every column of W is one column of U·D (and the same row of Dinv·Uᵀ)", "observed": {"column": i, "matches": js},
                         "tags": dict(tags, by_value=True)}
@@ -408,8 +435,13 @@ def gen_kernel(rng, n):
         m, nn = rng.randint(1, 5), rng.randint(1, 6)
         rk = rng.randint(0, min(m, nn))
         shape = rng.choice(SHAPES)
+        via = rng.choice(["kernel", "kernel", "orthogonal_complement"])
+        if via == "orthogonal_complement":
+            # its docstring requires linearly independent row vectors: k = rank ≤ n (utils.kernel itself takes any rank)
+            m = rng.randint(1, nn)
+            rk = m
         yield {"m": m, "n": nn, "rank": rk, "shape": shape, "A": [L.encM(L.rank_mat(rng, m, nn, rk)) for _ in range(cnt(shape))],
-               "via": rng.choice(["kernel", "kernel", "orthogonal_complement"])}
+               "via": via}
 
 
 def run_kernel(inp):
@@ -458,8 +490,9 @@ def judge_kernel(inp, obs, lr):
         if captured and (max(r["svd_recon"], r["svd_orth"]) > 1e-9 * 40 or not r["svd_sorted"] or r["svd_len"] != min(inp["m"], inp["n"])):
             return {"expected": "svd contract A = uΣvh, u uᵀ = vh vhᵀ = 1, s ≥ 0 descending, len(s) = min(m,n)", "observed": r,
                     "tags": dict(tags, lapack_contract=True)}
-        if captured and sel["ok"] != obs["N"][u]:
-            return {"expected": {"selected rows of vh": sel["ok"]}, "observed": obs["N"][u], "tags": dict(tags, selection=True)}
+        if captured and not same_span(Q.decf(sel["ok"]) if sel["ok"] else np.zeros((0, inp["n"])),
+                                      Q.decf(obs["N"][u]) if obs["N"][u] else np.zeros((0, inp["n"]))):
+            return {"expected": {"span of the selected rows of vh": sel["ok"]}, "observed": obs["N"][u], "tags": dict(tags, selection=True)}
         if max(r["ann"], r["orth"]) > 1e-9 * 40 or r["count"] != kd:
             return {"expected": "A·N = 0, NᵀN = 1, n − rank columns (exact residuals)", "observed": r, "tags": dict(tags, residual=True),
                     "property_failure": True}
@@ -590,8 +623,9 @@ def judge_arcs(inp, obs, lr):
         if "err" in res:
             return {"expected": "model answer", "observed": res, "tags": dict(tags, driver_err=res["err"])}
         mv = Q.decf(res["ok"])
-        if not close(np.array(iv), mv, 1e-12):
-            return {"expected": mv.tolist(), "observed": iv, "tags": tags}
+        # an angle is an angle modulo 2π: first ≡ first, second ≡ second (this fixes the arc and its orientation)
+        if not all(math.isfinite(a) and abs(math.remainder(a - b, 2 * PI)) <= 1e-9 for a, b in zip(iv, mv)):
+            return {"expected": {"angles modulo 2π": mv.tolist()}, "observed": iv, "tags": tags}
     return None
 
 
@@ -749,6 +783,8 @@ def gen_kero(rng, n):
                 A = np.zeros((m, nn))
             As.append(A.tolist())
         via = rng.choice(["kernel", "kernel", "oc_form", "oc_none", "oc_real_none", "oc_real_form"])
+        if via != "kernel" and any(r != m for r in [rk]):
+            via = "kernel"          # orthogonal_complement documents linearly independent rows; only utils.kernel takes any rank
         inp = {"m": m, "n": nn, "rank": rk, "shape": shape, "A": As, "via": via}
         if via.startswith("oc_real"):
             # a genuine (positive definite, so that normalisation is always possible) form: complements are form-orthogonal
@@ -1054,7 +1090,8 @@ def run_purity(inp):
     same = all(x.shape == y.shape and (x.size == 0 or float(np.max(np.abs(x - y))) == 0.0) for x, y in zip(ref, again)) and len(ref) == len(again)
     out = {"changed": changed, "repeatable": bool(same)}
     # (G4) the same values in another dtype against the float64 reference
-    if inp["dtype"] == "float32" and fn not in ("kernel", "orthogonal_complement", "find_isometry", "indefinite_orthogonalize"):
+    if inp["dtype"] == "float32" and fn not in ("kernel", "orthogonal_complement", "find_isometry", "indefinite_orthogonalize", "diagonalize_form"):
+        # (helpers returning a basis are excluded: the basis is not determined by the contract)
         a32 = [np.array(a, copy=True).astype(np.float32) for a in snap]
         r64, _ = _call(fn, [a.astype(np.float64) for a in a32], kw)
         r32, _ = _call(fn, a32, kw)
@@ -1189,7 +1226,30 @@ def run_intpack(inp):
         return {"raised": type(e).__name__, "msg": str(e)[:120]}
     out = [np.asarray(x, dtype=float) for x in (out if isinstance(out, tuple) else (out,))]
     same_shape = len(out) == len(ref) and all(x.shape == y.shape for x, y in zip(out, ref))
-    dev = max([float(np.max(np.abs(x - y)) / (1 + np.max(np.abs(y)))) for x, y in zip(out, ref) if x.size] + [0.0]) if same_shape else float("inf")
+
+    def canon(res):
+        """what the contract determines about a result (bases only up to what it leaves free)"""
+        A = [np.array(a, dtype=float) for a in inp["args"]]
+        if fn in ("kernel", "orthogonal_complement", "orthogonal_complement_form"):
+            N = L.units(res[0], 2)                       # rows: projector onto their span
+            return [np.array([(lambda q: q @ q.T)(np.linalg.qr(x.T)[0]) if x.size else np.zeros((x.shape[-1], x.shape[-1])) for x in N])]
+        if fn == "diagonalize_form":
+            W = L.units(res[0], 2)
+            Bs = L.units(A[0], 2)
+            G = W.swapaxes(-1, -2) @ Bs @ W
+            extra = [L.units(res[0], 2) @ L.units(res[1], 2)] if len(res) > 1 else []
+            return [G] + extra
+        if fn in ("indefinite_orthogonalize", "find_isometry"):
+            M = L.units(res[0], 2)
+            k = np.array(inp["args"][1]).shape[-2]
+            head = M[:, :k, :] * np.sign(np.take_along_axis(M[:, :k, :], np.argmax(np.abs(M[:, :k, :]), axis=-1)[..., None], axis=-1))
+            return [head, M @ A[0] @ M.swapaxes(-1, -2)]  # prescribed rows up to sign, Gram matrix of all rows
+        return res
+    if same_shape:
+        co, cr = canon(out), canon(ref)
+        dev = max([float(np.max(np.abs(x - y)) / (1 + np.max(np.abs(y)))) for x, y in zip(co, cr) if x.size] + [0.0])
+    else:
+        dev = float("inf")
     changed = max([float(np.max(np.abs(np.asarray(a, dtype=float) - np.asarray(b_, dtype=float)))) for a, b_ in zip(packed, snap) if np.size(a)] + [0.0])
     return {"dev": dev, "changed": changed, "finite": bool(all(finite(x) for x in out))}
 
@@ -1203,8 +1263,9 @@ def judge_intpack(inp, obs, lr):
             return {"expected": "integer data accepted here (same answer as for the float64 array of the same values)", "observed": obs,
                     "tags": dict(tags, exc=obs["raised"])}
         return None          # refusing loudly is acceptable where the library never took this packaging
-    if not (obs["dev"] <= 1e-9 and obs["finite"]):
-        return {"expected": "the same answer as for the float64 array of the same values", "observed": obs, "tags": dict(tags, truncated=True)}
+    if not (obs["dev"] <= 1e-8 and obs["finite"]):
+        return {"expected": "the same answer as for the float64 array of the same values (bases compared up to the freedom the contract leaves)",
+                "observed": obs, "tags": dict(tags, truncated=True)}
     if obs["changed"] > 0:
         return {"expected": "arguments not modified", "observed": obs, "tags": dict(tags, input_isolation=True)}
     return None
@@ -1218,13 +1279,13 @@ CLAUSES = [
            budget={"quick": 110, "thorough": 3000},
            what="find_isometry with the kernel basis captured from the implementation: Lean runs gs(partial) ++ gs(ker) exactly on it (by value), evaluates the kernel contract and M F Mᵀ − diag(±1) exactly; force_oriented"),
     Clause("diag_corr", "corr", gen_diag, run_diag, judge_diag, lean=lean_diag, site="utils.diagonalize_form",
-           budget={"quick": 240, "thorough": 4000},
+           budget={"quick": 180, "thorough": 4000},
            what="eigh output captured: Lean evaluates the eigh contract and WᵀBW, W·Winv exactly; the model's order (stable argsort) reproduces W, Winv by value; signs in the requested order; batches with mixed signatures; reverse; with_inverse"),
     Clause("diag_exact_corr", "corr", gen_diag_exact, run_diag_exact, judge_diag_exact, lean=lean_diag_exact, site="utils.diagonalize_form",
            budget={"quick": 120, "thorough": 2000},
            what="diagonalizeForm executed over ℚ on the exact eigen-decomposition of QᵀDQ (distinct eigenvalues, |D| rational squares) vs W, Winv up to the sign of each eigenvector"),
     Clause("kernel_corr", "corr", gen_kernel, run_kernel, judge_kernel, lean=lean_kernel, site="utils.kernel / numerical.svd_kernel / orthogonal_complement",
-           budget={"quick": 240, "thorough": 4000},
+           budget={"quick": 180, "thorough": 4000},
            what="svd captured: model's row selection equals the returned basis exactly; svd contract, A·N, NᵀN−1 exactly; every rank 0..min(m,n) incl. trivial kernel; batches"),
     Clause("sphere_corr", "corr", gen_sphere, run_sphere, judge_sphere, lean=lean_sphere, site="utils.sphere_through / circle_through",
            budget={"quick": 200, "thorough": 3000},
